@@ -100,6 +100,7 @@ class Machine:
 
     def setreg(self, t, v, pc=None):
         t = self.alias.get(t, t)
+        t = {"r16": "sp", "r17": "ra"}.get(t, t)  # the game's names for sp / ra
         v = float(v)
         m = REG_RE.match(t)
         if m:
@@ -152,10 +153,13 @@ class Machine:
         t = self.alias.get(t, t)
         if t in self.defines:
             return self.defines[t]
+        t = {"r16": "sp", "r17": "ra"}.get(t, t)
         m = REG_RE.match(t)
         if m:
             n = int(m.group(1))
             if n > 15:
+                if t in self.labels:
+                    return float(self.labels[t])
                 raise VMError(f"bad register {t}", "badreg")
             return self.reg[n]
         if t == "sp":
@@ -220,11 +224,18 @@ class Machine:
         self.goto(pc, new, "call")
 
     def do_return(self, pc, tgt):
-        if self.shadow:
-            exp, sp0, cpc, ctgt = self.shadow.pop()
-            self.ret_events.append((pc, tgt, exp, self.sp, sp0, cpc, len(self.shadow) + 1, ctgt))
+        # the frame being served: normally the top one; a return out of an internal subroutine
+        # (list-loop body) may skip frames - the skipped call targets are reported to the monitors
+        k = next((i for i in range(len(self.shadow) - 1, -1, -1) if self.shadow[i][0] == tgt), None)
+        if k is None and self.shadow:
+            k = len(self.shadow) - 1
+        if k is not None:
+            skipped = [f[3] for f in self.shadow[k + 1:]]
+            exp, sp0, cpc, ctgt = self.shadow[k]
+            del self.shadow[k:]
+            self.ret_events.append((pc, tgt, exp, self.sp, sp0, cpc, len(self.shadow) + 1, ctgt, skipped))
         else:
-            self.ret_events.append((pc, tgt, None, self.sp, None, None, 0, None))
+            self.ret_events.append((pc, tgt, None, self.sp, None, None, 0, None, []))
         self.goto(pc, tgt, "ret")
 
     # ---- run
